@@ -77,3 +77,19 @@ Theorem C16_copy_panic_only_from_update F src dest o until now :
   exists d sl sdif, snd (update_dest_with_diff F d sl sdif 0 (co_from o) until now (co_copy_nan o)) = OutPanic.
 Proof. exact (copy_panic_only_from_update F src dest o until now). Qed.
 Print Assumptions C16_copy_panic_only_from_update.
+
+(** ... and it does not: on every destination content that some history of updates can produce
+    (the physical rings represent write logs, [Rel_all]), for every valid layout, every clock of the
+    domain and every well-formed source list (the one read from a source file, the sum of files),
+    copy and sum-copy end in success or an error, never in a panic — the batch updates inside
+    [updateDestWithDiff] included (composition of C02/C03's refinement theorems over the loop) *)
+From WT Require Import Proofs.ChainProofs Proofs.HistoryProofs Proofs.CopyProofs.
+Theorem C16_copy_never_panics F sh sl dest o until now d logs :
+  (match dest with Some _ => opened dest
+   | None => match create (co_method o) (co_xff o) (co_layout o) with Some fresh => Some (sync fresh) | None => None end end) = Some d ->
+  Rel_all (hd_arcs d) logs -> 1 <= hd_method d <= 6 ->
+  wf_layout_full (layout_of (hd_arcs d)) -> clock_ok (layout_of (hd_arcs d)) now ->
+  0 <= co_from o < 2^32 -> 0 <= until < 2^32 -> co_from o <= until -> Forall series_wf sl ->
+  r_status (copy_core F (RdOk sh sl) dest o until now) <> StPanic.
+Proof. exact (copy_core_no_panic F sh sl dest o until now d logs). Qed.
+Print Assumptions C16_copy_never_panics.
